@@ -188,7 +188,8 @@ def impl_F2(p, om, path='fresh'):
 
 def quad_F2(p, om, n=20):
     """independent evaluation of F2_ab,kl(w) = int_0^tau dt int_0^t dt' e^{-iw(t-t')} B_ak(t) B_bl(t')
-    with B_ak(t) = s_a(t) tr[U(t)^dag N_a U(t) C_k]: expm + nested Gauss-Legendre; None if too oscillatory"""
+    with B_ak(t) = s_a(t) tr[U(t)^dag N_a U(t) C_k]: time-domain propagator (spectral decomposition inside a
+    segment, scipy expm across segments) + nested Gauss-Legendre; None if too oscillatory"""
     x, wt = np.polynomial.legendre.leggauss(n)
     H = np.einsum('ijk,il->ljk', p.c_opers, p.c_coeffs)
     basis = p.basis.view(np.ndarray)
@@ -205,7 +206,8 @@ def quad_F2(p, om, n=20):
         return None
 
     def Bt(g, u):
-        U = sla.expm(-1j * H[g][None] * u[:, None, None]) @ Q
+        lam, W = np.linalg.eigh(H[g])
+        U = np.einsum('ij,tj,kj->tik', W, np.exp(-1j * lam[None, :] * u[:, None]), W.conj()) @ Q
         M = np.einsum('tji,ajk,tkl->tail', U.conj(), p.n_opers, U)
         return np.einsum('tail,kli->tak', M, basis) * p.n_coeffs[None, :, g, None]
 
@@ -272,7 +274,7 @@ def make_case(r, i, thorough):
     if i % 9 == 8:
         p, tags = ladder_pulse(r, int(r.integers(1, 3)))
     else:
-        d = int(r.choice([2, 2, 3]))
+        d = int(r.choice([2, 2, 2, 3]))
         G = int(r.integers(1, 4))
         nn = int(r.integers(1, 3))
         dtc = str(r.choice(['generic', 'zero-length', 'wide'], p=[.7, .15, .15]))
@@ -293,7 +295,7 @@ def make_case(r, i, thorough):
     om.append(sgn * (ev[g, m] - ev[g, n]))
     ft.append('res0')
     # near resonances (and near zero frequency)
-    for _ in range(2):
+    for _ in range(2 if thorough else 1):
         g = int(r.integers(0, G))
         m, n = int(r.integers(0, d)), int(r.integers(0, d))
         delta = float(r.choice(DELTAS))
@@ -414,6 +416,15 @@ def run_cases(ctx, cases, failures, samples=None):
                 nm = 'c%d_%d' % (ci, o)
                 defs.append((nm, coq_F2_case(nm, p, om[o], F2[..., o:o + 1], o == 0)))
                 meta.append(('F2', ci, o, inp))
+                # where the segment integral has wrong entries, all with a small non-zero denominator, the
+                # implementation with the exact segment integral is evaluated too (classification of a disagreement)
+                confined, any_wrong = table_errors_confined(p, om[o])
+                if confined and any_wrong:
+                    with exact_integral():
+                        F2x = impl_F2(p, np.array([om[o]]), 'fresh')
+                    nm = 'x%d_%d' % (ci, o)
+                    defs.append((nm, coq_F2_case(nm, p, om[o], F2x, False)))
+                    meta.append(('F2x', ci, o, inp))
         else:
             failures.append(dict(kind='prop', observable='finite', signature='c10-finite',
                                  detail='NaN or infinity in the second-order filter function', input=inp))
@@ -424,10 +435,15 @@ def run_cases(ctx, cases, failures, samples=None):
                 classes[k2] = classes.get(k2, 0) + 1
         if samples is not None and len(samples) < 4:
             samples.append(dict(tags=tags, omega=[float(x) for x in om], max_abs_F2=float(np.nanmax(np.abs(F2)))))
-    res = ctx.eval_tallies(HEADER, defs, per_file=3)
-    recheck = []
+    res = ctx.eval_tallies(HEADER, defs, per_file=2)
+    exact_ok = {(ci, o): (x is not None and x[2] == 0 and x[0] > 0)
+                for (kind, ci, o, _), x in zip(meta, res) if kind == 'F2x'}
+    nev = 0
     for (kind, ci, o, inp), x in zip(meta, res):
         p, om, ft, tags = cases[ci]
+        if kind == 'F2x':
+            continue
+        nev += 1
         if x is None:
             failures.append(dict(kind='corr', observable='model-evaluation', signature='c10-model-eval',
                                  detail='Coq evaluation of the model failed (%s)' % kind, input=inp))
@@ -441,39 +457,21 @@ def run_cases(ctx, cases, failures, samples=None):
             continue
         inp1 = dict(inp, omega=np.array([om[o]]), freq_class=ft[o])
         if x[2] > 0:
-            recheck.append((ci, o, x, inp1))
-        elif x[0] == 0:
-            failures.append(dict(kind='corr', observable='F2 vs model', signature='c10-model-undecided',
-                                 detail='no entry decided by the 160-bit evaluation [%s]' % ft[o], input=inp1))
-    # disagreements: known cancellation iff table errors are confined to small non-zero denominators and the
-    # implementation with the exact segment integral agrees with the model enclosure
-    defs2, meta2 = [], []
-    for ci, o, x, inp1 in recheck:
-        p, om, ft, tags = cases[ci]
-        confined, any_wrong = table_errors_confined(p, om[o])
-        if confined and any_wrong:
-            with exact_integral():
-                F2x = impl_F2(p, np.array([om[o]]), 'fresh')
-            nm = 'x%d_%d' % (ci, o)
-            defs2.append((nm, coq_F2_case(nm, p, om[o], F2x, False)))
-            meta2.append((ci, o, x, inp1))
-        else:
-            failures.append(dict(kind='corr', observable='F2 vs model', signature='c10-corr',
-                                 detail='%d entries outside the model enclosure (+-%g rel) [%s]' % (x[2], REL_TOL, ft[o]), input=inp1))
-    if defs2:
-        res2 = ctx.eval_tallies(HEADER, defs2, per_file=3)
-        for (ci, o, x, inp1), y in zip(meta2, res2):
-            ft = cases[ci][2]
             det = '%d entries outside the model enclosure (+-%g rel) [%s]' % (x[2], REL_TOL, ft[o])
-            if y is not None and y[2] == 0 and y[0] > 0:
+            # known cancellation iff the table errors are confined to small non-zero denominators and the
+            # implementation with the exact segment integral agrees with the model enclosure
+            if exact_ok.get((ci, o), False):
                 failures.append(dict(kind='corr-known', observable='F2 vs model', signature=KNOWN_SIG, detail=det, input=inp1))
             else:
                 failures.append(dict(kind='corr', observable='F2 vs model', signature='c10-corr', detail=det, input=inp1))
-    return len(defs), classes, dict(entries_agree=agree, entries_undecided=undec)
+        elif x[0] == 0:
+            failures.append(dict(kind='corr', observable='F2 vs model', signature='c10-model-undecided',
+                                 detail='no entry decided by the 160-bit evaluation [%s]' % ft[o], input=inp1))
+    return nev, classes, dict(entries_agree=agree, entries_undecided=undec)
 
 
 def run(ctx):
-    n = 60 if ctx.thorough else 14
+    n = 54 if ctx.thorough else 10
     r = ctx.rng(10)
     cases = [make_case(r, i, ctx.thorough) for i in range(n)]
     failures, samples = [], []
